@@ -98,7 +98,7 @@ var prop = hx.Prop[Case]{
 		c := Case{
 			Backend: rapid.SampledFrom([]string{"mem", "file"}).Draw(t, "backend"),
 			Sizes:   rapid.SliceOfN(rapid.IntRange(0, 6), rapid.SampledFrom([]int{0, 2, 3, 3}).Draw(t, "minmsgs"), 8).Draw(t, "sizes"),
-			End:     rapid.SampledFrom([]string{"quit", "quit", "drop"}).Draw(t, "end"),
+			End:     rapid.SampledFrom([]string{"quit", "quit", "drop", "quitdrop"}).Draw(t, "end"),
 		}
 		// most sessions log in early
 		if rapid.IntRange(0, 4).Draw(t, "login") > 0 {
@@ -397,10 +397,19 @@ func run(c Case) *hx.Outcome {
 		}
 		quit = true
 	}
+	quitUnread := false
+	if !o.Failed() && !quit && c.End == "quitdrop" {
+		// the client sends QUIT and goes away without waiting for the answer: the command was
+		// given, so the session ends as after any QUIT (deletions applied when in TRANSACTION)
+		if err := pc.Write([]byte("QUIT\r\n")); err != nil {
+			o.Failf(pid+":harness", "writing QUIT: %v", err)
+		}
+		quit, quitUnread = true, true
+	}
 	if quit && trans {
 		committed = true
 	}
-	if quit && !o.Failed() {
+	if quit && !quitUnread && !o.Failed() {
 		if l, err := pc.ReadLine(hx.ReplyTimeout); err != hx.ErrClosed {
 			o.Failf(pid+":reply-count", "after QUIT the server sent %q / %v instead of closing: replies out of step", l, err)
 		}
